@@ -157,10 +157,18 @@ pub fn check(case: &Case) -> Outcome {
 
     let name = render(&case.name, &canary);
     let files: Vec<(String, usize)> = if case.multi {
-        case.paths.iter().enumerate().map(|(k, p)| (render(p, &canary), 3 + k)).collect()
+        // lengths include 0 and multiples of the piece length (4): a hostile entry may be an empty file that starts
+        // exactly at the end of the last piece
+        case.paths.iter().enumerate().map(|(k, p)| (render(p, &canary), [3usize, 0, 4, 8, 5, 0][(k + (case.seed % 6) as usize) % 6])).collect()
     } else {
         vec![(name.clone(), 5)]
     };
+    let mut files = files;
+    if files.iter().map(|f| f.1).sum::<usize>() == 0 {
+        // at least one piece must exist
+        files[0].1 = 4;
+    }
+    o.class_if(case.multi && files.iter().map(|f| f.1).sum::<usize>() % 4 == 0 && files.last().map(|f| f.1 == 0).unwrap_or(false), "empty-file-at-the-very-end-of-the-content");
     let geo = Geometry { piece_len: 4, files, multi: case.multi, name: name.clone(), content_seed: case.seed };
     let t = Torrent::new(geo.clone());
     let m = match catch(|| t.metainfo()) {
